@@ -7,6 +7,7 @@ AST (JSON-able lists):
     ["code"]
     ["define", name, value-or-None]      value "" == defined empty
     ["undef", name]
+    ["hidden", text]                     a directive-looking line inside a block comment between two code lines
     ["chain", [[kw, expr, body], ...]]   kw in if/ifdef/ifndef/elif/else; expr None for else
 A body is a list of items.
 """
@@ -86,6 +87,16 @@ def render(body, prefix="m", style=None, rng=None):
                 emit("def", deco_directive(f"#undef {it[1]}"), group, name=it[1], op="undef")
             elif k == "raw":
                 emit(it[2], [it[1]], group)
+            elif k == "hidden":
+                # ["hidden", directive-text]: a directive-looking line INSIDE a block comment that opens on a code line and
+                # closes on the next code line; the middle line belongs to no item (it is neither counted nor expected)
+                n1 = f"cbi_m_{prefix}_{len(r.text_lines) + 1}"
+                emit("code", [n1 + "; /* disabled:"], group, marker=n1)
+                r.text_lines.append(it[1])
+                n3 = f"cbi_m_{prefix}_{len(r.text_lines) + 1}"
+                emit("code", ["*/ " + n3 + ";"], group, marker=n3)
+                if r.groups[group]["marker"] is None:
+                    r.groups[group]["marker"] = n1
             elif k == "include":
                 # ["include", form, spelling]  form: "q" -> "spelling", "a" -> <spelling>, "m" -> macro name
                 form, sp = it[1], it[2]
